@@ -1226,6 +1226,11 @@ func (g *g) heredoc(n string) string {
 	h.Body = body.String()
 	h.BodySkel = ps
 	h.Delim = delim
+	if !h.Quoted && g.chance("hd_cont_before_delim", 10) {
+		// a line that is only a line continuation joins with the delimiter line
+		h.DelimPrefix = "\\\n"
+		g.f("heredoc_continuation_line_before_delimiter")
+	}
 	if op == "<<-" {
 		h.Delim = strings.Repeat("\t", g.ch.Intn(4, "hd_tab_delim")) + delim
 	}
